@@ -13,6 +13,10 @@ Calls (one JSON object per line, answer on one line):
   (`Diagonal` rule: optional `"abs":{"args":[z…],"vals":[z…]}`, the moduli NumPy computed)
   → the triple: per factor shape, dtype, kind tree, the code-model dense value (`td`, exact) and
   whether it equals the specification (`den`; for the back-substituted factor: the matrix formula);
+  Krylov rules also: `w_good` (`wf && !dupSlice` of the eigenvector operator the eigensolver handed over),
+  `w_shape` (it has the shape `Svd.EigShape`, from which `C16_lanczos_W_good` derives all of `Op.Good`),
+  `eigs_ascending` (the handed eigenvalues are real and ascending: the order conjunct of `Svd.EigsSorted`);
+  DenseSVD also: `lapack_descending` (the handed singular values are real, ≥ 0, descending: `Svd.LapackSorted`);
   for the structural rules the exact truth of the property (`orthU`, `orthV`, `sigma_ok`, `recon`)
 * `{"call":"pinv","op":…,"alg":…}` → what the rule builds.
 All scalars are exact (integers, `{"q":[num,den]}`, pairs `[re, im]`): doubles travel as dyadic
@@ -98,6 +102,26 @@ def jTable (args vals : Json) (dflt : GRat → GRat) : E (GRat → GRat) := do
     match (List.range a.size).find? (fun t => a.getD t 0 == x) with
     | some t => v.getD t 0
     | none => dflt x
+
+/-- the shape of the eigenvector operator the real eigensolvers return (`Svd.EigShape`, decidable form):
+`Product(Orthonormal(Dense Q), Dense Y)` with a shared inner dimension, or `Dense(V)`.  By `C16_lanczos_W_good`
+the shape implies `Op.Good` (well-formed, no repeated slice index, `HermOK`), i.e. `W_good` of the Krylov theorems. -/
+def isEigShape (W : Op GRat) : Bool :=
+  match W with
+  | .dense .. => true
+  | .prod [.annot a (.dense _ r j _), .dense _ j' _ _] =>
+      j == j' && (if r == j then a == .unitary else a == .stiefel)
+  | _ => false
+
+/-- `vals[0..n)` real and ascending (the ORDER conjunct of `Svd.EigsSorted`) -/
+def ascendingReal (n : Nat) (v : Nat → GRat) : Bool :=
+  ((List.range n).all fun t => (v t).im == 0) &&
+  ((List.range (n - 1)).all fun t => (v t).re ≤ (v (t + 1)).re)
+
+/-- `s[0..n)` real, non-negative and descending (the ORDER conjunct of `Svd.LapackSorted`) -/
+def descendingReal (n : Nat) (v : Nat → GRat) : Bool :=
+  ((List.range n).all fun t => (v t).im == 0 && (v t).re ≥ 0) &&
+  ((List.range (n - 1)).all fun t => (v (t + 1)).re ≤ (v t).re)
 
 def eqWin (r c : Nat) (a b : MatF GRat) : Bool :=
   (List.range r).all fun i => (List.range c).all fun j => a i j == b i j
@@ -203,7 +227,8 @@ def handle (j : Json) : E String := do
           let Vf := (forceV A.cols A.cols (matF V0)).f
           let P : Params GRat := { baseParams with lapackSvd := fun _ _ _ => ⟨Uf, vecF s0, Vf⟩ }
           let (idx, T) := svdDense P A
-          pure ("{" ++ pre ++ s!",\"idx\":{showNats idx}," ++ showFactor "U" T.U ++ "," ++ showFactor "S" T.S ++ "," ++ showFactor "V" T.V ++ "}")
+          let desc := descendingReal (min A.rows A.cols) (vecF s0)
+          pure ("{" ++ pre ++ s!",\"idx\":{showNats idx},\"lapack_descending\":{desc}," ++ showFactor "U" T.U ++ "," ++ showFactor "S" T.S ++ "," ++ showFactor "V" T.V ++ "}")
       | _ => do
           let ej := getF j "eigs"
           let eigs ← match getF ej "V" with
@@ -217,7 +242,11 @@ def handle (j : Json) : E String := do
               let T := o.triple
               let back := if o.tall then T.U else T.V
               let backEq := eqWin back.rows back.cols back.td.f o.specBack.f
-              pure ("{" ++ pre ++ s!",\"tall\":{o.tall},\"gram\":{skel o.G},\"j\":{o.j},\"pos\":{showNats o.pos},\"back_eq\":{backEq},\"back_good\":{o.lazyBack.wf && !o.lazyBack.dupSlice},\"back_skel\":{skel o.lazyBack}," ++ showFactor "U" T.U ++ "," ++ showFactor "S" T.S ++ "," ++ showFactor "V" T.V ++ "}")
+              -- the eigensolver's output the rule was handed: `W_good` (decidable parts), its shape, the ORDER of the values
+              let W := (eigs o.G).W
+              let wGood := W.wf && !W.dupSlice
+              let asc := ascendingReal o.j (eigs o.G).vals
+              pure ("{" ++ pre ++ s!",\"w_good\":{wGood},\"w_shape\":{isEigShape W},\"eigs_ascending\":{asc},\"tall\":{o.tall},\"gram\":{skel o.G},\"j\":{o.j},\"pos\":{showNats o.pos},\"back_eq\":{backEq},\"back_good\":{o.lazyBack.wf && !o.lazyBack.dupSlice},\"back_skel\":{skel o.lazyBack}," ++ showFactor "U" T.U ++ "," ++ showFactor "S" T.S ++ "," ++ showFactor "V" T.V ++ "}")
   | "pinv" => do
       let A ← jOp (getF j "op")
       let alg ← jPAlg (getF j "alg")
